@@ -290,6 +290,10 @@ def _graphs(which):
                 # 3 edges over 2 vertices: the difference sits in the edge at index >= number of vertices
                 expect("last_edge_differs", d0, dense(10.0), False)
             return
+        if which == "last_vertex_moved":
+            # bounded coordinates for the vertex that is moved (declared first so that both modes draw them in range)
+            P.real("v2_0", lo=-3.0, hi=3.0)
+            P.real("v2_1", lo=-3.0, hi=3.0)
         base = build(["SE2", "SE2", "R2"])
         if which == "copy":
             expect("equal_graphs", base, build(["SE2", "SE2", "R2"]), True)
